@@ -1,5 +1,7 @@
 """C09 - one-step ODE schemes reproduce their defining recurrences.  Deciding monitors: contracts in vt.monitors_ode
 (step-wise dense recurrence, list shape, unit norms, defect formulas, time-trace of the adaptive method) + M4."""
+import math
+
 import numpy as np
 
 from .. import gen, probe, monitors_sle, monitors_ode
@@ -163,6 +165,17 @@ def w_hod(ctx, rng, idx):
     ctx.describe({'op': 'hod', 'dims': dims, 'complex': cplx, 'h': h, 'steps': N, 'order': order, 'normalize': nz, 'previous_given': prev is not None,
                   'previous_ranks': prev.ranks if prev is not None else None})
     kw = {} if prev is None else {'previous_value': prev}
+    if rng.random() < 0.2:
+        # a precomputed series operator (of another order than `order`, so that a recomputed one would differ)
+        o2 = 4 if order <= 2 else 2
+        if max(A.ranks) ** (o2 - 1) <= 1500:
+            with probe.oracle():
+                op = 2 * h * A.copy()
+                tmp = A.copy()
+                for k in range(2, o2 // 2 + 1):
+                    tmp = tmp.dot(A).dot(A)
+                    op = op + 2 / math.factorial(2 * k - 1) * h ** (2 * k - 1) * tmp
+            kw['op_hod'] = op
     call('ode.hod', ode.hod, A, x0, h, N, prop=P, order=order, threshold=[0.0, 1e-14][int(rng.integers(0, 2))], max_rank=10 ** 6, normalize=nz, progress=False, **kw)
     # the same operator object (and step size) again with one setting changed: another order, another step size, or the operator
     # rescaled in place by its owner between the calls
